@@ -286,3 +286,55 @@ _add(Cond('frame_mixed_kinds', [('m0', 'bool'), ('m1', 'bool'), ('n0', 'bool'), 
         functions=['Frame.isna', 'Frame.fillna', 'TypeBlocks._fillna_directional_axis_0'],
         bounds='2x4 frame with float64 (NaN), int64, object (None) and bool columns; every missing pattern; fill an unbounded symbolic int',
         route='Frame.isna / fillna / fillna_forward on mixed column kinds; never-missing columns keep their dtype', timeout=200))
+
+
+# ---------------------------------------------------------------- directional fill ACROSS blocks of different kinds
+
+MK = (('float64', (1.5, 2.5, 3.5)), ('int64', (7, 8, 9)), ('bool', (True, False, True)))
+
+
+def _lays_for(kinds):
+    out = []
+    for lay in layouts.compositions(len(kinds)):
+        j, ok = 0, True
+        for nd, w in lay:
+            if len(set(kinds[j:j + w])) > 1:
+                ok = False
+            j += w
+        if ok:
+            out.append(lay)
+    return out
+
+
+def body_directional_mixed(env, k0, k1, k2, m0, m1, m2):
+    """A fill along axis 1 carries a value of one column kind into a column of another kind: the carried value must arrive
+    unchanged (value and type), whatever block layout holds the columns."""
+    from vf import rt
+    kinds = []
+    for k in (k0, k1, k2):
+        for c in range(3):
+            if k == c:
+                kinds.append(c)
+    miss = [bool(m0), bool(m1), bool(m2)]
+
+    def run():
+        sf = env.sf
+        from static_frame.core.type_blocks import TypeBlocks
+        lib = [(env.nan if miss[c] else MK[kinds[c]][1][c]) for c in range(3)]
+        ref = [(M if miss[c] else MK[kinds[c]][1][c]) for c in range(3)]
+        got, exp = [], []
+        for lay in _lays_for(kinds):
+            tb = TypeBlocks.from_blocks(layouts.build_blocks_typed(env, [[v] for v in lib], [MK[k][0] for k in kinds], lay))
+            f = sf.Frame(tb, index=[100], columns=['a', 'b', 'c'])
+            got.append([env.obs(f.fillna_forward(axis=1).values.tolist()), env.obs(f.fillna_backward(axis=1).values.tolist()),
+                        env.obs(f.fillna_forward(1, axis=1).values.tolist())])
+            exp.append([[ref_directional(ref, True, 0)], [ref_directional(ref, False, 0)], [ref_directional(ref, True, 1)]])
+        return got, exp
+    return rt.untraced(run)
+
+
+_add(Cond('frame_directional_axis1_mixed_kinds', [('k0', 'int'), ('k1', 'int'), ('k2', 'int'), ('m0', 'bool'), ('m1', 'bool'), ('m2', 'bool')], body_directional_mixed,
+        ranges={'k0': (0, 2), 'k1': (0, 2), 'k2': (0, 2)}, pre=['k0 == 0 or not m0', 'k1 == 0 or not m1', 'k2 == 0 or not m2'],
+        functions=['TypeBlocks._fillna_directional_axis_1'],
+        bounds='one-row frame of 3 columns; the kind of every column symbolic over (float64, int64, bool), float cells possibly missing (symbolic); every block layout that can hold the kinds',
+        route='Frame.fillna_forward / fillna_backward(axis=1): a value carried into a column of another kind arrives unchanged (value and type)', timeout=300))
